@@ -355,6 +355,11 @@ def build(ctx):
                     timeout=None if tmo < 0 else tmo,
                     shutdown_timeout=None if stmo < 0 else stmo,
                     verbose=bool(ctx.h.get("verbose", False)))
+        late = {}
+        if ctx.h.get("lateattr"):
+            # the settings are plain attributes: they may be assigned after construction
+            late = {key: kwds[key] for key in ("jobs_window", "timeout", "shutdown_timeout")}
+            kwds.update(jobs_window=1, timeout=7, shutdown_timeout=5)
         if node == 1 and cfg["pure"]:
             ctx.obj[node] = VPure(node, *members, **kwds)
         else:
@@ -362,6 +367,8 @@ def build(ctx):
                                    critical=ctx.g("crit", node),
                                    forever=ctx.g("forever", node),
                                    label="n%d" % node, **kwds)
+        for key, val in late.items():
+            setattr(ctx.obj[node], key, val)
         return ctx.obj[node]
 
     top = mk(1)
